@@ -46,7 +46,7 @@ var props = map[string]*propCfg{
 	"C20": {
 		ID: "C20", Scenario: "sessions", Race: false,
 		QuickRuns: 160000, ThorRuns: 3000000, QuickChunk: 500, ThorChunk: 2000, ChunkTimeoS: 1800,
-		Rule: "one evaluation = one simulated run: 1-6 runners (on 1-3 task goroutines; with more than one task the token scheduler interleaves them at statement level) each executing a seed-derived history of SETTHIS / SETVAL / EVAL / STORE / FETCH / PROBE operations; formulas come from the model grammar (literals, names, $locals, assignment, comma, arrays, parentheses, conditionals, small-integer +, same-kind ===, calls to recording / put / get / failing host stubs) and are generated against the model's current state; every result, every get, the host-call order and the caller's data are compared with the two-map reference model after every op; single host faults are enumerated at every call position on clones of the current state. Non-trivial: at least one evaluation and (several evaluations, several runners, or an aborted evaluation); distinct = distinct hash of the complete op histories.",
+		Rule: "one evaluation = one simulated run: 1-6 runners (on 1-3 task goroutines; with more than one task the token scheduler interleaves them at statement level) each executing a seed-derived history of SETTHIS (fresh map, empty map, nil, or a map object handed over before) / SETVAL / CALLER-WRITES (the caller writes into its own map) / EVAL / STORE / FETCH / PROBE operations; parsed trees are kept and re-evaluated; formulas come from the model grammar (literals, names, $locals, assignment, comma, arrays, parentheses, conditionals, small-integer + - * and unary minus, same-kind ===, calls to recording / put / get / failing host stubs) and are generated against the model's current state; every result, every get, the host-call order and the caller's data are compared with the two-map reference model after every op; single host faults are enumerated at every call position on clones of the current state. Non-trivial: at least one evaluation and (several evaluations, several runners, or an aborted evaluation); distinct = distinct hash of the complete op histories.",
 		Assumptions: []string{
 			"the reference model is written from the statement; where the statement is silent (does an evaluation that returned an error keep the locals it had assigned?) each such local may hold its old or its new value and the model resynchronises by reading it",
 			"formulas stay inside the fragment whose meaning the statements fix; null is not passed to host stubs while the C11 null-argument finding is open",
@@ -58,7 +58,7 @@ var props = map[string]*propCfg{
 	"C07": {
 		ID: "C07", Scenario: "sessions", Race: false,
 		QuickRuns: 160000, ThorRuns: 3000000, QuickChunk: 500, ThorChunk: 2000, ChunkTimeoS: 1800,
-		Rule: "one evaluation = one simulated run, of two kinds chosen by the tape: (a) a sessions history as for C20 (binding, sequencing, persistence across evaluations, forbidden assignment targets, host-visible evaluation order, all against the store-passing reference evaluator, with enumerated host faults); (b) a frame run: 1-10 formulas of the broad grammar (all operators and builtins) over a data map holding decimals, nested maps, slices, structs and times, each evaluated on fresh state without fault, with a fault at every host-call position, and on a history runner, with a deep snapshot of all non-$ caller data compared before and after. Distinct = distinct hash of histories / outcomes.",
+		Rule: "one evaluation = one simulated run, of two kinds chosen by the tape: (a) a sessions history as for C20 (binding, sequencing, persistence across evaluations, forbidden assignment targets, host-visible evaluation order, all against the store-passing reference evaluator, with enumerated host faults); (b) a frame run: 1-10 formulas of the broad grammar (all operators and builtins, long chains and deep nesting, non-ASCII identifiers) over a data map holding decimals, nested maps, slices, structs and times, each evaluated on fresh state without fault, with a fault at every host-call position, and on a history runner, with a deep snapshot of all non-$ caller data compared before and after. Distinct = distinct hash of histories / outcomes.",
 		Assumptions: []string{
 			"side-effecting sub-expressions are generated only where the statement fixes the order (comma, array elements, call arguments, condition before branch, assignment right-hand side)",
 			"after an evaluation that returned an error each local it had assigned may hold its old or its new value",
@@ -70,7 +70,7 @@ var props = map[string]*propCfg{
 	"C08": {
 		ID: "C08", Scenario: "purity", Race: false,
 		QuickRuns: 60000, ThorRuns: 600000, QuickChunk: 400, ThorChunk: 1000, ChunkTimeoS: 1800,
-		Rule: "one evaluation = one simulated run: a history of 5-200 operations (REPEAT_EVAL of a corpus entry with a fresh runner and fresh equal data, REPARSE, FIELDS, unrelated NOISE formulas, POOL_FLUSH, CLOCK_JUMP) on one task or on 2-4 tasks interleaved at statement level, under a fresh map-iteration order for every repetition and a seed-chosen process zone. Every repetition is compared with the baseline the worker process computed in pristine state at start (and baselines are compared across the ~60 worker processes); trees are deep-dumped (all fields, exported or not) after every evaluation and analysis. Non-trivial: at least two repeated evaluations in the history; distinct = distinct hash of the op scripts.",
+		Rule: "one evaluation = one simulated run: a history of 5-200 operations (REPEAT_EVAL of a corpus entry with a fresh runner and fresh equal data, REPARSE, FIELDS, unrelated NOISE formulas, POOL_FLUSH, CLOCK_JUMP; the corpus is 64/512 generated formulas plus a fixed collection of ~45 lexically or syntactically broken texts) on one task or on 2-4 tasks interleaved at statement level, under a fresh map-iteration order for every repetition and a seed-chosen process zone. Every repetition is compared with the baseline the worker process computed in pristine state at start (and baselines are compared across the ~60 worker processes); trees are deep-dumped (all fields, exported or not) after every evaluation and analysis. Non-trivial: at least two repeated evaluations in the history; distinct = distinct hash of the op scripts.",
 		Assumptions: []string{
 			"`now` and `toDay` are excluded as the statement says; formulas using `date` are compared only under the baseline's process zone",
 			"field lists are compared as sets",
@@ -82,7 +82,7 @@ var props = map[string]*propCfg{
 	"C11": {
 		ID: "C11", Scenario: "bridge", Race: false,
 		QuickRuns: 300000, ThorRuns: 6000000, QuickChunk: 5000, ThorChunk: 10000, ChunkTimeoS: 1800,
-		Rule: "one evaluation = one simulated run: 1-6 host functions with seed-derived signatures (parameter kinds string, bool, int, int8-64, float32/64, interface{}, *decimal.Big, time.Time, slices and string-keyed maps of these, variadic tails, optional leading context; result kinds int, int32, int64, float32, float64, string, bool, interface{}, *decimal.Big) synthesised with reflect.MakeFunc, and one formula `[call, call, ...]` whose calls have argument lists of length 0..n+2 over all value kinds, with and without spread, nested in arguments, arrays and conditional branches; evaluated fault-free and then with a returned error at every host-call position (enumerated). The recorded invocations (order, converted arguments, context identity) and the outcome are compared with a three-valued declarative model (must call / must fail without calling / unspecified). Non-trivial: at least one evaluated call or a predicted failure; distinct = distinct hash of formula text and recorded invocation logs.",
+		Rule: "one evaluation = one simulated run: 1-6 host functions with seed-derived signatures (parameter kinds string, bool, int, int8-64, float32/64, interface{}, *decimal.Big, time.Time, slices and string-keyed maps of these, variadic tails, optional leading context; result kinds int, int32, int64, float32, float64, string, bool, interface{}, *decimal.Big) synthesised with reflect.MakeFunc, and one formula `[call, call, ...]` whose calls have argument lists of length 0..n+2 over all value kinds, with and without spread, nested in arguments, arrays and conditional branches, mixed with calls of the library's own builtins (abs, max, min, len, upper, lower, left, right, contains, find, replace, join, includes, finite, year, month, day) and, in a quarter of the runs, a host function that re-enters the runner with a derived context; in a sixth of the runs 2-3 such worlds run on tasks interleaved at statement level; evaluated fault-free and then with a returned error at every host-call position (enumerated). The recorded invocations (order, converted arguments, context identity) and the outcome are compared with a three-valued declarative model (must call / must fail without calling / unspecified). Non-trivial: at least one evaluated call or a predicted failure; distinct = distinct hash of formula text and recorded invocation logs.",
 		Assumptions: []string{
 			"cells the statement does not fix (null to non-interface parameters, text of arrays/times/maps as strings, numeric-looking strings to numbers, out-of-range integers, values that came through a float32) are UNSPECIFIED: only the specified prefix of the invocation log is checked for that evaluation",
 			"conversion to string-keyed map parameters is read as element-wise, like slices",
@@ -94,7 +94,7 @@ var props = map[string]*propCfg{
 	"C19": {
 		ID: "C19", Scenario: "clock", Race: false, Synctest: true,
 		QuickRuns: 150000, ThorRuns: 2000000, QuickChunk: 500, ThorChunk: 2000, ChunkTimeoS: 1800,
-		Rule: "one evaluation = one simulated run: a seed-chosen process zone, a simulated wall clock and 5-200 operations on one runner: now()/toDay() with the clock placed anywhere in years 1-9999 or just before local midnight and ticking (0 .. 36 h, sometimes backwards) after every read inside the call; date(y,m,d) with months and days from -50 to +60; the eight field extractors, addDate with shifts up to +-400 years / +-5000 months and days, useTimezone against a simulated zone database with intact, missing, empty, torn and garbage files, timeFormat with numeric layouts, and date->extractor chains through locals. Oracles: wall-clock bracket of the call; independent days-from-civil arithmetic; the real time.LoadLocation under the same directory. Non-trivial: at least two operations; distinct = distinct hash of the operation list.",
+		Rule: "one evaluation = one simulated run: a seed-chosen process zone, a simulated wall clock and 5-200 operations on one runner: now()/toDay() with the clock placed anywhere in years 1-9999 or just before local midnight and ticking (0 .. 36 h, sometimes backwards) after every read inside the call; date(y,m,d) with months and days from -50 to +60; the eight field extractors, addDate with shifts up to +-400 years / +-5000 months and days, useTimezone against a simulated zone database with intact, missing, empty, torn and garbage files, timeFormat with numeric layouts, and date->extractor chains through locals; in a fifth of the runs 1-2 further callers with their own runners use the date builtins interleaved at statement level; parsed trees are kept and re-evaluated. A second engine runs the uninstrumented package inside testing/synctest bubbles (go1.26.8) and checks now()/toDay() against the bubble's fake clock. Oracles: wall-clock bracket of the call; independent days-from-civil arithmetic; the real time.LoadLocation under the same directory. Non-trivial: at least two operations; distinct = distinct hash of the operation list.",
 		Assumptions: []string{
 			"the UTC offset in force at an instant is taken from Go's time package (real tz parser, real zone files); everything else in the oracle is independent integer arithmetic",
 			"where a local wall time does not exist or is ambiguous (zone transition) either adjacent offset is accepted, as Go documents for time.Date",
